@@ -425,6 +425,11 @@ func runC04(h *H) {
 			h.DoRisky("thrift.embedded", sh, strconv.Itoa(i))
 		}
 	}
+	if h.Thorough() {
+		h.thriftEmbedded(60)
+	} else {
+		h.thriftEmbedded(8)
+	}
 	h.thriftMessageRoundTrip(false)
 	// unions: every member kind × zero / non-zero × protocols; improper union values; several members on the wire
 	if h.Thorough() {
@@ -766,9 +771,11 @@ func runC08(h *H) {
 	if h.Thorough() {
 		h.thriftUnionSweep("C08", 4)
 		h.thriftUnionMulti(60)
+		defer h.thriftUnionEmbedded(12)
 	} else {
 		h.thriftUnionSweep("C08", 1)
 		h.thriftUnionMulti(6)
+		defer h.thriftUnionEmbedded(2)
 	}
 	for i := 0; i < N; i++ {
 		t, val := h.genThriftCase()
